@@ -16,9 +16,9 @@ HARNESSES = [
 ]
 RULE = ("a case = a whole operation history on two objects of one flavour: static_vector of int / Pod (trivial storage), Tracked / "
         "NxCopy (noexcept non-trivial copy, self-checking) / std::string / MoveOnly (non-trivial storage); stack over static_vector of "
-        "int / Tracked / std::string; inplace_vector of the same six element kinds; capacities {0,1,2,3,4,8,16,254,255,256} and "
+        "int / Tracked / std::string / MoveOnly; inplace_vector of the same six element kinds; capacities {0,1,2,3,4,8,16,254,255,256} and "
         "{65534,65535,65536}; exhaustive part: every content state of length <= cap <= 3 over values {1,18,35} x every single "
-        "operation (59 static_vector operations, 17 stack operations, 25 inplace_vector operations) with every position/count/index "
+        "operation (43 static_vector, 17 stack, 24 inplace_vector operations of the model = 44 / 17 / 24 harness op codes) with every position/count/index "
         "argument in [-1, size+1]; short exhaustive histories for inplace_vector and stack; random part: seeded capacity-aware "
         "histories of length <= 40, ~35% of steps at or crossing full/empty, fill-to-boundary runs at 254/255/256 and 65534/65535/65536; non-trivial = distinct history that reaches a non-empty state")
 TRUSTED_BASE = ["reference leg: libstdc++ 12 std::vector<int> / std::stack<int, std::vector<int>> driven by the same history "
@@ -34,12 +34,13 @@ BIG_CAPS = [65534, 65535, 65536]
 CAPS = {
     "sv_int": SV_CAPS + BIG_CAPS, "sv_trk": [0, 1, 3, 4, 16], "sv_pod": [3, 16], "sv_nxc": [1, 3, 4], "sv_str": [0, 1, 3, 4],
     "sv_mov": [0, 1, 3, 4, 16],
-    "stack": [0, 1, 3, 4, 16, 256], "st_trk": [1, 3, 4], "st_str": [1, 3],
+    "stack": [0, 1, 3, 4, 16, 256], "st_trk": [1, 3, 4], "st_str": [1, 3], "st_mov": [1, 3, 4],
     "iv_int": SV_CAPS + BIG_CAPS, "iv_trk": [0, 1, 3, 4, 16], "iv_nxc": [1, 3, 4], "iv_mov": [0, 1, 3, 4], "iv_str": [1, 3, 4],
     "iv_pod": [3, 16],
 }
 # operations that need a copyable element type (the harness answers `unsupported-step` for them on MoveOnly)
-NEEDS_COPY = {"icr", "inn", "irg", "rsv", "asn", "asr", "cpa", "cpc", "sca", "ctv", "ctr", "cpi", "ivc"}
+NEEDS_COPY = {"icr", "inn", "irg", "rsv", "asn", "asr", "cpa", "cpc", "sca", "ctv", "ctr", "cpi", "ivc", "fcc"}
+NEEDS_COPY_ST = NEEDS_COPY | {"pb"}     # stack::push(value_type const&)
 
 
 def L(xs):
@@ -224,20 +225,22 @@ def setup_ops(fl, c0, c1):
     if k == "iv":
         return [f"tpb 0 {e}" for e in c0] + [f"tem 1 {e}" for e in c1]
     if k == "st":
-        return [f"fcc 0 {L(list(c0))}", f"fcr 1 {L(list(c1))}"]
+        return [f"fcc 0 {L(list(c0))}" if fl != "st_mov" else f"fcr 0 {L(list(c0))}", f"fcr 1 {L(list(c1))}"]
     if fl == "sv_mov":
         return [f"mir 0 0 {L(list(c0))}", f"mir 1 0 {L(list(c1))}"]
     return [f"asr 0 {L(list(c0))}", f"asr 1 {L(list(c1))}"]
 
 
 def supported(fl, op):
-    return not (fl.endswith("_mov") and op.split()[0] in NEEDS_COPY)
+    if not fl.endswith("_mov"):
+        return True
+    return op.split()[0] not in (NEEDS_COPY_ST if fl == "st_mov" else NEEDS_COPY)
 
 
 def exhaustive_single(out, fl, cap, vals, full_contents, rng=None, keep=1.0):
     k = kind(fl)
     single = {"sv": sv_single_ops, "st": st_single_ops, "iv": iv_single_ops}[k]
-    tail = {"sv": ["rel", "cpc 0" if fl != "sv_mov" else "mrt 0"], "st": ["rel", "cpc 0"], "iv": ["dat 0", "dat 1"]}[k]
+    tail = {"sv": ["rel", "cpc 0" if fl != "sv_mov" else "mrt 0"], "st": ["rel", "cpc 0" if fl != "st_mov" else "siz 0"], "iv": ["dat 0", "dat 1"]}[k]
     for n0 in range(0, cap + 1):
         if full_contents or n0 <= 1:
             contents = list(itertools.product(vals, repeat=n0))
@@ -260,7 +263,7 @@ def random_history(rng, fl, cap, vals, steps, want_invalid, fill_first=None):
     ops = []
     if fill_first is not None:
         n = fill_first
-        o = {"sv": f"asn 0 {n} {rng.choice(vals)}", "st": f"fcc 0 {L([rng.choice(vals)] * n)}", "iv": f"fil 0 {n} {rng.choice(vals)}"}[k]
+        o = {"sv": f"asn 0 {n} {rng.choice(vals)}", "st": f"fcr 0 {L([rng.choice(vals)] * n)}", "iv": f"fil 0 {n} {rng.choice(vals)}"}[k]
         if fl == "sv_mov":
             o = f"rsz 0 {n}"
         if o is not None:
@@ -324,7 +327,9 @@ def random_history(rng, fl, cap, vals, steps, want_invalid, fill_first=None):
             else:
                 bad = ([f"pb {t} {x}", f"pbr {t} {x}", f"eb {t} {x}"] if room == 0 else []) + \
                       ([f"pop {t}", f"bk {t}", f"sbk {t} {x}"] if sz == 0 else []) + [f"fcc {t} {L([x] * (cap + 1))}"]
-            chosen = rng.choice(bad)
+            bad = [o for o in bad if supported(fl, o)]
+            if bad:
+                chosen = rng.choice(bad)
         ops.append(chosen)
         sim.apply(chosen)
     return hist(fl, cap, ops)
@@ -343,7 +348,7 @@ def gen(tier, rng):
         for cap in ([3] if quick else CAPS[fl]):
             if cap in CAPS[fl] and cap <= 4:
                 exhaustive_single(out, fl, cap, vals, full_contents=False, rng=rng, keep=(0.5 if quick else 1.0))
-    for fl in ("stack", "st_trk", "st_str"):
+    for fl in ("stack", "st_trk", "st_str", "st_mov"):
         for cap in [c for c in CAPS[fl] if c <= (3 if quick else 4)]:
             exhaustive_single(out, fl, cap, vals, full_contents=not quick)
     for fl in ("iv_int", "iv_trk", "iv_nxc", "iv_mov", "iv_str", "iv_pod"):
@@ -386,6 +391,12 @@ def gen(tier, rng):
                             continue
                         ins = f"irg 0 {pos} {L(new)}" if fl != "sv_mov" else f"mir 0 {pos} {L(new)}"
                         out.append(hist(fl, cap, [f"mir 0 0 {L(base)}", ins, f"era 0 {pos}", "rit 0 0"]))
+    # ---- dirty storage: slots at and above size() that held elements before must not show through a later growth
+    for fl, caps in (("sv_int", [1, 2, 3, 4, 8]), ("sv_pod", [3]), ("sv_trk", [3]), ("sv_str", [3])):
+        for cap in caps:
+            for k in range(0, cap):
+                out.append(hist(fl, cap, [f"asn 0 {cap} 35", f"rsz 0 {k}", f"rsz 0 {cap}"]))
+                out.append(hist(fl, cap, [f"asn 0 {cap} 35", f"err 0 {k} {cap}", f"ctn 1 {cap}", "swp", f"rsz 1 {cap}"]))
     # ---- erase_if / erase over every keep/remove pattern of length <= 6 (7 in the thorough tier): remove_if's two cursors
     for n in range(0, (7 if quick else 8)):
         for pat in itertools.product([1, 18], repeat=n):
@@ -412,7 +423,7 @@ def gen(tier, rng):
     # ---- random capacity-aware histories
     n_rand = 2600 if quick else (20000 if tier == "search" else 120000)
     flavours = ["sv_int"] * 5 + ["sv_trk"] * 2 + ["sv_nxc", "sv_str", "sv_mov", "sv_mov", "sv_pod"] + \
-               ["stack", "stack", "st_trk", "st_str"] + ["iv_int"] * 3 + ["iv_trk", "iv_nxc", "iv_mov", "iv_str", "iv_pod"]
+               ["stack", "stack", "st_trk", "st_str", "st_mov"] + ["iv_int"] * 3 + ["iv_trk", "iv_nxc", "iv_mov", "iv_str", "iv_pod"]
     for _ in range(n_rand):
         fl = rng.choice(flavours)
         cap = rng.choice([c for c in CAPS[fl] if c < 60000])
